@@ -42,6 +42,13 @@ const (
 	zoneU  = "u.c05."
 	zoneS  = "s.c05."
 	zoneZF = "zf.c05."
+	// signed zones whose apex sits at other depths of the tree (the suffix
+	// walks of the wire ladder visit every ancestor of a question down to the
+	// root): the root zone itself, a top-level domain, a two-label and a four-label apex
+	zoneRoot = "."
+	zoneD1   = "d1c05."
+	zoneD2   = "d2.c05."
+	zoneD4   = "w.x.d.c05."
 	posTTL = 300
 	// fixed absolute signature validity window: deterministic in every world
 	sigInception  = 1767225600 // 2026-01-01
@@ -59,8 +66,24 @@ func mustRR(s string) dns.RR {
 	return rr
 }
 
+// under returns label(s) + zone (the root zone has no label of its own).
+func under(label, zone string) string {
+	if zone == "." {
+		return label + "."
+	}
+	return label + "." + zone
+}
+
+// depthZones are the signed zones by apex depth (0, 1, 2, 4 labels).
+var depthZones = []string{zoneRoot, zoneD1, zoneD2, zoneD4}
+
+// rootFamilies are the families the universe serves directly under the root
+// (first label of a top-level name); every other name outside the universe's
+// zones keeps the plain "outside" behaviour.
+var rootFamilies = map[string]bool{"nxs": true, "nys": true, "nxsf": true, "nysf": true, "nds": true, "fail": true}
+
 func soaFor(zone string) dns.RR {
-	return mustRR(fmt.Sprintf("%s 300 IN SOA ns.%s hostmaster.%s 2026092501 7200 900 1209600 300", zone, zone, zone))
+	return mustRR(fmt.Sprintf("%s 300 IN SOA %s %s 2026092501 7200 900 1209600 300", zone, under("ns", zone), under("hostmaster", zone)))
 }
 
 // fakeSig builds an RRSIG covering rr's RRset (signatures are never verified
@@ -96,7 +119,7 @@ func nsecRR(owner, next string, types ...uint16) dns.RR {
 // splitName returns family, the first label and the zone of a lower-cased
 // name ("" zone when the name is not inside one of the universe's zones).
 func splitName(lname string) (fam, first, zone string) {
-	for _, z := range []string{zoneU, zoneS, zoneZF} {
+	for _, z := range []string{zoneU, zoneS, zoneZF, zoneD1, zoneD2, zoneD4} {
 		if lname == z {
 			return "apex", "", z
 		}
@@ -106,9 +129,22 @@ func splitName(lname string) (fam, first, zone string) {
 		}
 	}
 	if zone == "" {
-		return "", "", ""
+		// the root zone: only top-level labels of the root families
+		all := dns.SplitDomainName(lname)
+		if len(all) == 0 {
+			return "", "", ""
+		}
+		tld := all[len(all)-1]
+		i := strings.IndexByte(tld, '-')
+		if i < 0 || !rootFamilies[tld[:i]] {
+			return "", "", ""
+		}
+		zone = zoneRoot
 	}
 	rest := strings.TrimSuffix(lname, "."+zone)
+	if zone == zoneRoot {
+		rest = strings.TrimSuffix(lname, ".")
+	}
 	labels := dns.SplitDomainName(rest + ".")
 	if len(labels) == 0 {
 		return "", "", zone
@@ -148,6 +184,65 @@ func terminal(owner string, qtype uint16, zone string) []dns.RR {
 	return nil
 }
 
+// richTypes are the question types the rich terminal (family rs) answers.
+var richTypes = []uint16{dns.TypeA, dns.TypeNS, dns.TypeSOA, dns.TypePTR, dns.TypeHINFO, dns.TypeMX, dns.TypeTXT, dns.TypeRP, dns.TypeAFSDB,
+	dns.TypeAAAA, dns.TypeSRV, dns.TypeNAPTR, dns.TypeKX, dns.TypeDNAME, dns.TypeDS, dns.TypeSSHFP, dns.TypeNSEC, dns.TypeDNSKEY, dns.TypeTLSA,
+	dns.TypeSVCB, dns.TypeHTTPS, dns.TypeCAA, dns.TypeMB, dns.TypeMG, dns.TypeMR, dns.TypeMF, dns.TypeMD, dns.TypeMINFO, dns.TypeNSAPPTR, dns.TypeURI, dns.TypeLOC}
+
+// richSet builds the terminal RRset of a rich owner: at least two records per
+// type where the type allows it; every domain name inside rdata either ends
+// in the owner / the zone (a packer may compress it against the owner or the
+// question) or shares a forward-tree suffix with the name of a sibling record
+// (a packer may compress the second against the first).
+func richSet(owner string, qtype uint16, zone, id string) []dns.RR {
+	fwd := "cust-" + id + ".example.net."
+	var out []dns.RR
+	add := func(rdata ...string) {
+		for _, rd := range rdata {
+			out = append(out, mustRR(fmt.Sprintf("%s %d IN %s %s", owner, posTTL, dns.TypeToString[qtype], rd)))
+		}
+	}
+	switch qtype {
+	case dns.TypeA, dns.TypeAAAA, dns.TypeTXT:
+		out = []dns.RR{stack.MarkerRR(9, owner, qtype, posTTL), stack.MarkerRR(10, owner, qtype, posTTL)}
+	case dns.TypePTR, dns.TypeNS, dns.TypeMB, dns.TypeMG, dns.TypeMR, dns.TypeMF, dns.TypeMD, dns.TypeNSAPPTR:
+		add("host."+fwd, "www."+fwd, "ptr."+owner)
+	case dns.TypeDNAME:
+		add("dn." + fwd)
+	case dns.TypeMX, dns.TypeKX, dns.TypeAFSDB:
+		add("10 mx1."+fwd, "20 mx2."+fwd, "30 mx."+owner)
+	case dns.TypeRP, dns.TypeMINFO:
+		add("box."+fwd+" txt."+fwd, "box."+owner+" "+under("txt", zone))
+	case dns.TypeSRV:
+		add("0 5 5060 sip1."+fwd, "0 5 5061 sip2."+fwd, "1 1 5060 sip."+owner)
+	case dns.TypeNAPTR:
+		add(`100 10 "S" "SIP+D2U" "" _sip._udp.`+fwd, `100 20 "S" "SIP+D2T" "" _sip._tcp.`+fwd)
+	case dns.TypeSOA:
+		add(fmt.Sprintf("ns.%s hostmaster.%s 2026092502 7200 900 1209600 300", fwd, owner))
+	case dns.TypeHINFO:
+		add(`"c05" "verif"`)
+	case dns.TypeDS:
+		add("4242 13 2 "+strings.Repeat("ab", 32), "4243 13 2 "+strings.Repeat("cd", 32))
+	case dns.TypeSSHFP:
+		add("4 2 "+strings.Repeat("12", 32), "1 2 "+strings.Repeat("34", 32))
+	case dns.TypeTLSA:
+		add("3 1 1 "+strings.Repeat("56", 32), "2 1 1 "+strings.Repeat("78", 32))
+	case dns.TypeDNSKEY:
+		add("257 3 13 "+fakeSignature, "256 3 13 "+fakeSignature)
+	case dns.TypeNSEC:
+		out = []dns.RR{nsecRR(owner, "z."+owner, richTypes...)}
+	case dns.TypeSVCB, dns.TypeHTTPS:
+		add("1 svc1."+fwd+" alpn=h2 port=8443", "2 svc2."+fwd+" alpn=h3", "0 alt."+owner)
+	case dns.TypeCAA:
+		add(`0 issue "ca.example.net"`, `128 iodef "mailto:sec@example.net"`)
+	case dns.TypeURI:
+		add(`10 1 "https://`+fwd+`/a"`, `10 2 "https://`+fwd+`/b"`)
+	case dns.TypeLOC:
+		add("52 22 23.000 N 4 53 32.000 E -2.00m 0.00m 10000m 10m")
+	}
+	return out
+}
+
 func negative(m *dns.Msg, zone string, rcode int) {
 	m.Rcode = rcode
 	m.Ns = append(m.Ns, soaFor(zone))
@@ -164,6 +259,10 @@ func cname(owner, target string) dns.RR {
 		ttl = 180
 	case strings.HasPrefix(owner, "cnp-"), strings.HasPrefix(owner, "sigc-"):
 		ttl = 240
+	case strings.HasPrefix(owner, "cnq-"):
+		ttl = 200
+	case strings.HasPrefix(owner, "cnr-"):
+		ttl = 150
 	}
 	return &dns.CNAME{Hdr: dns.RR_Header{Name: owner, Rrtype: dns.TypeCNAME, Class: dns.ClassINET, Ttl: ttl}, Target: target}
 }
@@ -223,7 +322,7 @@ func mixedSplit(id string) (spec, rest string) {
 }
 
 func apexNSEC(zone string) dns.RR {
-	return nsecRR(zone, "a."+zone, dns.TypeNS, dns.TypeSOA, dns.TypeRRSIG, dns.TypeNSEC, dns.TypeDNSKEY)
+	return nsecRR(zone, under("a", zone), dns.TypeNS, dns.TypeSOA, dns.TypeRRSIG, dns.TypeNSEC, dns.TypeDNSKEY)
 }
 
 // universe is the StubFunc.
@@ -247,7 +346,7 @@ func universe(_ context.Context, req *stack.StubRequest) *stack.StubReply {
 		return rep
 	}
 	id := strings.TrimPrefix(first, strings.TrimPrefix(fam, "sub:")+"-")
-	sibling := func(f string) string { return f + "-" + id + "." + zone }
+	sibling := func(f string) string { return under(f+"-"+id, zone) }
 	signed := zone != zoneU
 
 	switch fam {
@@ -294,6 +393,40 @@ func universe(_ context.Context, req *stack.StubRequest) *stack.StubReply {
 	case "cnp":
 		// partial: the alias only; the cache chases the target itself
 		m.Answer = []dns.RR{cname(lname, sibling("pos"))}
+
+	case "cnq", "cnr":
+		// bare aliases in front of a rich terminal: cnr -> cnq -> rs. The
+		// upstream answers every type with the alias only, so the alias and the
+		// terminal RRset of each asked type are cached as separate entries
+		nxt := sibling("rs")
+		if fam == "cnr" {
+			nxt = sibling("cnq")
+		}
+		c := cname(lname, nxt)
+		m.Answer = []dns.RR{c}
+		if signed {
+			m.AuthenticatedData = true
+			m.Answer = append(m.Answer, fakeSig(c, zone))
+		}
+
+	case "rs":
+		// rich terminal: an RRset of (almost) any type, several records each,
+		// with rdata names that share suffixes with one another and with the owner
+		rrs := richSet(lname, q.Qtype, zone, id)
+		if rrs == nil {
+			if signed {
+				signedNegative(m, zone, dns.RcodeSuccess,
+					nsecRR(lname, under("rs-"+id+"!", zone), richTypes...))
+			} else {
+				negative(m, zone, dns.RcodeSuccess)
+			}
+			break
+		}
+		m.Answer = rrs
+		if signed {
+			m.AuthenticatedData = true
+			m.Answer = append(m.Answer, fakeSig(rrs[0], zone))
+		}
 
 	case "cnx":
 		// alias to a non-existent name
@@ -354,7 +487,9 @@ func universe(_ context.Context, req *stack.StubRequest) *stack.StubReply {
 			negative(m, zone, dns.RcodeSuccess)
 		}
 
-	case "fail", "sub:fail":
+	case "fail", "sub:fail", "nxsf", "sub:nxsf", "nysf", "sub:nysf":
+		// nxsf / nysf sort inside the NSEC ranges the nxs / nys families prove
+		// empty: resolution fails for them now, a denial admitted later covers them
 		m.Rcode = dns.RcodeServerFailure
 
 	case "ref":
@@ -446,7 +581,7 @@ func universe(_ context.Context, req *stack.StubRequest) *stack.StubReply {
 				m.Answer = append(m.Answer, fakeSig(stack.MarkerRR(7, lname, t, posTTL), zone))
 			}
 		default:
-			n := nsecRR(lname, "sig-"+id+"!."+zone, dns.TypeA, dns.TypeTXT, dns.TypeAAAA, dns.TypeRRSIG, dns.TypeNSEC)
+			n := nsecRR(lname, under("sig-"+id+"!", zone), dns.TypeA, dns.TypeTXT, dns.TypeAAAA, dns.TypeRRSIG, dns.TypeNSEC)
 			signedNegative(m, zone, dns.RcodeSuccess, n)
 		}
 
@@ -467,15 +602,21 @@ func universe(_ context.Context, req *stack.StubRequest) *stack.StubReply {
 			}
 		}
 
-	case "nxs", "sub:nxs":
+	case "nxs", "sub:nxs", "nys", "sub:nys":
 		// signed NXDOMAIN with validated-negative provenance: every name in
-		// (nxr, nxt) does not exist; the wildcard is covered by the apex NSEC
-		denied := "nxs-" + id + "." + zone
-		if fam == "nxs" {
+		// (nxr, nxt) — for the nys family (nya, nyz) — does not exist; the
+		// wildcard is covered by the apex NSEC
+		base := strings.TrimPrefix(fam, "sub:")
+		denied := under(base+"-"+id, zone)
+		if fam == base {
 			denied = lname
 		}
+		lo, hi := "nxr", "nxt"
+		if base == "nys" {
+			lo, hi = "nya", "nyz"
+		}
 		signedNegative(m, zone, dns.RcodeNameError,
-			nsecRR("nxr."+zone, "nxt."+zone, dns.TypeA, dns.TypeRRSIG, dns.TypeNSEC),
+			nsecRR(under(lo, zone), under(hi, zone), dns.TypeA, dns.TypeRRSIG, dns.TypeNSEC),
 			apexNSEC(zone))
 		rep.Negative = &middleware.ValidatedNegativeProof{
 			Subject: denied, Zone: zone, Kind: middleware.ValidatedNegativeProofNSEC, Aggressive: true,
@@ -490,7 +631,7 @@ func universe(_ context.Context, req *stack.StubRequest) *stack.StubReply {
 			break
 		}
 		signedNegative(m, zone, dns.RcodeSuccess,
-			nsecRR(lname, "nds-"+id+"!."+zone, dns.TypeTXT, dns.TypeRRSIG, dns.TypeNSEC))
+			nsecRR(lname, under("nds-"+id+"!", zone), dns.TypeTXT, dns.TypeRRSIG, dns.TypeNSEC))
 		rep.Negative = &middleware.ValidatedNegativeProof{
 			Subject: lname, Zone: zone, Kind: middleware.ValidatedNegativeProofNSEC, Aggressive: true,
 		}
